@@ -1,6 +1,38 @@
-"""C03 - see vf/attackeng.py and spec/attack."""
-from . import attackeng
+"""C03 - see vf/attackeng.py and spec/attack; plus the unbounded proof of the worker accounting (WorkerPool.tla)."""
+import os, shutil, subprocess, time
+from . import attackeng, core
+
+
+def apalache(ctx, d, init, inv, length):
+    t = time.time()
+    try:
+        r = subprocess.run(["apalache-mc", "check", "--init=" + init, "--inv=" + inv, "--length=%d" % length, "--out-dir=" + os.path.join(d, "apa-out"),
+                            "WorkerPool.tla"], cwd=d, capture_output=True, text=True, timeout=600)
+    except subprocess.TimeoutExpired:
+        raise core.Infra("apalache timed out on WorkerPool %s => %s" % (init, inv))
+    out = r.stdout + r.stderr
+    ok = "The outcome is: NoError" in out
+    bad = "violated" in out and "Found 1 error" in out
+    if not ok and not bad:
+        raise core.Infra("apalache failed on WorkerPool %s => %s:\n%s" % (init, inv, out[-2000:]))
+    ctx.log("apalache WorkerPool %s => %s (length %d): %s in %.1fs" % (init, inv, length, "no error" if ok else "VIOLATED", time.time() - t))
+    return ok
 
 
 def run(ctx):
+    # the worker accounting for every bound and every initial count: IndInv is inductive (Apalache, unbounded integers) ...
+    d = os.path.join(ctx.scratch, "workerpool")
+    os.makedirs(d, exist_ok=True)
+    shutil.copy(os.path.join(core.SPEC, "attack", "WorkerPool.tla"), d)
+    obligations = [("Init", "IndInv", 0), ("IndInit", "IndInv", 1), ("IndInit", "Goal", 0)]
+    for init, inv, length in obligations:
+        if not apalache(ctx, d, init, inv, length):
+            raise core.Infra("WorkerPool: obligation %s => %s no longer holds in the model" % (init, inv))
+    if apalache(ctx, d, "InitNoClamp", "IndInv", 0):
+        raise core.Infra("sensitivity: without the initial clamp WorkerPool's invariant should fail")
+    # ... and Attack.tla refines it (TLC, action property over the whole bounded state space: MCAttackRefine.cfg, run by attackeng)
+    ctx.coverage["unbounded_proof"] = {"module": "spec/attack/WorkerPool.tla", "tool": "Apalache (SMT), maxw >= 1 and w0 >= 0 unconstrained integers",
+                                       "obligations": ["Init => IndInv", "IndInv /\\ Next => IndInv'", "IndInv => Bounded /\\ FreeCapacityUsed"],
+                                       "refinement": "Attack.tla => WorkerPool.tla checked by TLC (busy = workers - starting - idle - dead)",
+                                       "sensitivity": "without the initial clamp Init => IndInv is refuted"}
     return attackeng.run(ctx, "C03", "C03")
